@@ -8,6 +8,7 @@ From H3V Require Import Base.Bytes Spec.RFC9000 Spec.QuinnApi.
    accepted by send_data, or refused, or something else happened. *)
 Inductive send_event :=
 | EvAccepted (buf : list bytes)
+| EvRaw (bs : bytes)          (* poll_send reported these bytes of the caller's buffer as written *)
 | EvRefused
 | EvSendOther.
 
@@ -17,6 +18,7 @@ Fixpoint spec_handed (evs : list send_event) : bytes :=
   match evs with
   | [] => []
   | EvAccepted b :: r => concat b ++ spec_handed r
+  | EvRaw bs :: r => bs ++ spec_handed r
   | _ :: r => spec_handed r
   end.
 
